@@ -283,6 +283,10 @@ def build_model(E, case):
             # parameters written by hand on an object that already holds population variables; the object is *read*
             # through its public accessors in between (a reader must not freeze what a later save writes)
             _ = (m.parameters, m.hyperparameters, m.to_dict())
+            try:
+                trajectories(E, case["pseed"], m)      # ... and USED (trajectories computed) before it is written again
+            except Exception:  # noqa  (judged later, on the final object)
+                pass
             given = random_parameters(E, case["rewrite"], m, style, None if cont is None else cont + 1)
             m.load_parameters(given)
             scribble(E, given)
